@@ -112,7 +112,7 @@ Qed.
 
 Lemma error_received_frame s : frame s (fst (error_received s)).
 Proof.
-  unfold error_received. destruct (s_fut s) as [f|]; cbn [fst]; [|apply close_transport_frame].
+  unfold error_received. destruct (s_fut s) as [f|]; cbn [fst]; [|apply frame_refl].
   destruct (pending s f) eqn:Hp.
   - apply frame_trans with (b := complete s f (FExc XOSError)). apply complete_frame; eauto. apply close_transport_frame.
   - apply close_transport_frame.
